@@ -2,6 +2,7 @@ mod util;
 mod arr;
 mod c01;
 mod c06;
+mod c18;
 mod c19;
 mod hooks;
 mod c08;
@@ -44,6 +45,7 @@ fn exec_line(ctx: &mut Ctx, line: &str) -> String {
                 }
             }
         }
+        "c18" => c18::exec(line),
         "c19" => {
             let (v, m) = parse_line(line);
             if second == "cfg" {
@@ -101,6 +103,23 @@ fn main() {
                 .map(|l| match l.find(" -> ") { Some(p) => l[..p].to_string(), None => l.to_string() }).collect()
         }
         _ => { eprintln!("unknown command"); std::process::exit(2) }
+    };
+    // sharding: keep whole case blocks (a block starts at a `cfg` line or is a single stateless line)
+    let lines: Vec<String> = match a.shard {
+        None => lines,
+        Some((i, n)) => {
+            let mut out = vec![];
+            let mut block: isize = -1;
+            let mut in_cfg_block = false;
+            for l in lines {
+                let second = l.split_whitespace().nth(1).unwrap_or("");
+                if second == "cfg" { block += 1; in_cfg_block = true; }
+                else if second == "op" && in_cfg_block { /* continues the block */ }
+                else { block += 1; in_cfg_block = false; }
+                if (block as usize) % n == i { out.push(l); }
+            }
+            out
+        }
     };
     let mut w: Box<dyn Write> = match &a.out {
         Some(f) => Box::new(std::io::BufWriter::new(std::fs::File::create(f).unwrap())),
